@@ -44,6 +44,8 @@ def molecules(tier):
         ("branched", {"elements": [S("[]", ["[<]CC([>])[>]"], ["[>]N", "[<]O"], "[]", sz(45, 40))], "mixture": None}),
         ("translist", {"elements": [T("N"), S("[>]", ["[<]CC[>|0 0 1 0 0|]", "[<]CO[>|1 0 0 0 0|]"], ["[<]Cl"], "[<]", sz(70, 60)), T("F")], "mixture": None}),
         ("double-bond", {"elements": [S("[]", ["[$]=CC=[$]"], ["[$]=O", "[$]=C"], "[]", sz(60, 50))], "mixture": None}),
+        ("branched-then-suffix", {"elements": [T("N"), S("[>]", ["[<]CC(O[>])CO[>]"], ["[<]Cl"], "[<]", sz(150, 120)), T("F")], "mixture": None}),
+        ("sym-chain-then-suffix", {"elements": [S("[]", ["[$]CO[$]"], ["[$]Cl", "[$|0|]Br"], "[$]", sz(60, 50)), T("F")], "mixture": None}),
         ("multiatom-prefix", {"elements": [T("CCO"), S("[>]", ["[<]CC[>]"], [], "[<]", sz(60, 50)), T("C(F)F")], "mixture": None}),
     ]
     if tier == "thorough":
@@ -244,6 +246,17 @@ def eval_case(kind, data):
                 viol(res, f"C18|bond-off-graph|{name}", f"{text}: bond between atoms {sn[a]} and {sn[b]} of the stochastic graph is on no non-static edge", {"text": text, "script": script})
             elif bt not in nonstatic[key]:
                 viol(res, f"C18|bond-order|{name}", f"{text}: bond {sn[a]}-{sn[b]} has type {bt}, graph edges {nonstatic[key]}", {"text": text, "script": script})
+        # an atom cannot carry more bonds to other residues than it has descriptors (a capped end is not used again)
+        nb_at = {}
+        for a, b, bt in inter:
+            nb_at[a] = nb_at.get(a, 0) + 1
+            nb_at[b] = nb_at.get(b, 0) + 1
+        for v, cnt in nb_at.items():
+            tk, loc = owner[sn[v]]
+            nd = sum(1 for d in R.token_ref(tok_text[tk]).descs if d.atom == loc)
+            if cnt > nd:
+                viol(res, f"C18|attachment-atom-overused|{name}", f"{text}: generated {smi}: atom {loc} of a copy of {tok_text[tk]} has {cnt} bonds to other residues but carries {nd} bond descriptor(s)", {"text": text, "script": script})
+                break
         # tree of residues
         Tg = nx.Graph()
         Tg.add_nodes_from(set(comp_of.values()))
